@@ -4,6 +4,7 @@ Property theorems only; helper lemmas live in `Lemmas/`.
 Every statement holds behind an arbitrary prefix `p` (decoders read from the end of the buffer).
 -/
 import SpecVerif.Lemmas.Scalars
+import SpecVerif.Lemmas.IEEE
 namespace SpecVerif.C10
 open SpecVerif Pinned
 
@@ -110,25 +111,55 @@ theorem float32_as_float64 (F : FloatOps) (p : Bytes) (x : Nat) (h : x < 2 ^ 32)
     decodeFloat64 F (p ++ encFloat32 x) = .ok (F.widen x, (encFloat32 x).length) := by
   rw [decodeFloat64_enc32 F p x h]; simp [encFloat32]
 
-/-- What the model assumes about the platform's IEEE conversions (trusted base; the drivers'
-native float operations are compared with Go's on every run). -/
+/-- What the decoders need from the float conversions. It is not an assumption any more: the laws
+are PROVED for the bit-level IEEE model `IEEE.ieee` (`ieee_laws`, Lemmas/IEEE.lean), and the drivers
+run the decoders with exactly that model, so every float decode of the differential streams compares
+it with Go's conversions on this platform. -/
 structure FloatLaws (F : FloatOps) : Prop where
-  /-- widening then narrowing a float32 gives the same bit pattern -/
-  narrow_widen : ∀ x, x < 2 ^ 32 → F.narrow (F.widen x) = x
+  /-- widening then narrowing a float32 gives the same bit pattern, except for signalling NaNs -/
+  narrow_widen : ∀ x, x < 2 ^ 32 → ¬ IEEE.isSNaN32 x → F.narrow (F.widen x) = x
+  /-- a signalling NaN comes back as the quiet NaN with the same payload -/
+  narrow_widen_snan : ∀ x, x < 2 ^ 32 → IEEE.isSNaN32 x → F.narrow (F.widen x) = x + 2 ^ 22
   /-- a widened float32 is an infinity or lies inside the float32 range (NaN compares false) -/
   widen_in_range : ∀ x, x < 2 ^ 32 →
     F.isInf (F.widen x) = true ∨ (F.ltNegMax (F.widen x) = false ∧ F.gtMax (F.widen x) = false)
 
-/-- float32 round trip (partial: relies on `FloatLaws`; `narrow_widen` holds bit-exactly for every
-non-signalling pattern on IEEE hardware, a signalling NaN comes back quieted). Covers ±Inf, which
-the unrepaired decoder rejected as overflow. -/
-theorem float32_roundtrip_partial (F : FloatOps) (L : FloatLaws F) (p : Bytes) (x : Nat) (h : x < 2 ^ 32) :
-    decodeFloat32 F (p ++ encFloat32 x) = .ok (x, (encFloat32 x).length) := by
+/-- the bit-level IEEE conversions satisfy the laws -/
+theorem ieee_laws : FloatLaws IEEE.ieee :=
+  ⟨IEEE.narrow_widen, IEEE.narrow_widen_snan, IEEE.widen_in_range⟩
+
+/-- DecodeFloat32 on float32 data always succeeds (never an overflow error) with the widened and
+re-narrowed pattern and the encoded size -/
+theorem float32_decodes (F : FloatOps) (L : FloatLaws F) (p : Bytes) (x : Nat) (h : x < 2 ^ 32) :
+    decodeFloat32 F (p ++ encFloat32 x) = .ok (F.narrow (F.widen x), (encFloat32 x).length) := by
   rw [decodeFloat32_enc32 F p x h]
   have e : (encFloat32 x).length = 5 := by simp [encFloat32]
   rcases L.widen_in_range x h with hi | ⟨h1, h2⟩
-  · simp [hi, L.narrow_widen x h, e]
-  · simp [h1, h2, L.narrow_widen x h, e]
+  · simp [hi, e]
+  · simp [h1, h2, e]
+
+/-- float32 round trip, bit-exact: every finite value, ±0, subnormals, ±Inf (which the unrepaired
+decoder rejected as overflow) and every quiet NaN payload -/
+theorem float32_roundtrip (F : FloatOps) (L : FloatLaws F) (p : Bytes) (x : Nat) (h : x < 2 ^ 32)
+    (hn : ¬ IEEE.isSNaN32 x) :
+    decodeFloat32 F (p ++ encFloat32 x) = .ok (x, (encFloat32 x).length) := by
+  rw [float32_decodes F L p x h, L.narrow_widen x h hn]
+
+/-- the one exception: a signalling NaN reads back as a NaN with the quiet bit set (the IEEE
+conversion float32 -> float64 -> float32 inside DecodeFloat32 quiets it); it is still a NaN -/
+theorem float32_snan_quieted (F : FloatOps) (L : FloatLaws F) (p : Bytes) (x : Nat) (h : x < 2 ^ 32)
+    (hn : IEEE.isSNaN32 x) :
+    decodeFloat32 F (p ++ encFloat32 x) = .ok (x + 2 ^ 22, (encFloat32 x).length) := by
+  rw [float32_decodes F L p x h, L.narrow_widen_snan x h hn]
+
+/-- the statements for the concrete conversions, without hypotheses about the platform -/
+theorem float32_roundtrip_ieee (p : Bytes) (x : Nat) (h : x < 2 ^ 32) (hn : ¬ IEEE.isSNaN32 x) :
+    decodeFloat32 IEEE.ieee (p ++ encFloat32 x) = .ok (x, (encFloat32 x).length) :=
+  float32_roundtrip IEEE.ieee ieee_laws p x h hn
+
+/-- float32 read through the float64 accessor and back is the identity: widening is exact -/
+theorem float32_widen_exact (x : Nat) (h : x < 2 ^ 32) (hn : ¬ IEEE.isSNaN32 x) :
+    IEEE.narrow (IEEE.widen x) = x := IEEE.narrow_widen x h hn
 
 /-- float64 read as float32: narrowed when infinite or inside the float32 range, overflow error
 otherwise — never another outcome. -/
